@@ -28,11 +28,12 @@ def split_anchor(anchor):
 class SymH:
     mode = 'sym'
 
-    def __init__(self, st, loops=None, summaries=None):
+    def __init__(self, st, loops=None, summaries=None, concretize=None):
         self.st = st
         self.I = Interp(st, loops, summaries)
         self.ufs = {}
         self.labels = []
+        self.concretize = concretize or {}     # size parameters fixed to small constants (DESIGN 2.6, phase 2)
 
     # ------------------------------------------------------------ symbols
     def _reg(self, name, fn):
@@ -53,6 +54,10 @@ class SymH:
             self._reg('INF', lambda m: _num(m, INF))
 
     def int(self, name):
+        if name in self.concretize:
+            k = int(self.concretize[name])
+            self._reg(name, lambda m, k=k: k)
+            return k
         v = self.st.fresh(name, 'int')
         self._reg(name, lambda m, t=v.t: _num(m, t))
         self.st.size_terms.append(v.t)
@@ -73,7 +78,14 @@ class SymH:
         self._reg(name, lambda m, kk=k: kk)
         return options[k]
 
-    def list_real(self, name, nd=False, ek='real', minlen=0, inf=False):
+    def list_real(self, name, nd=False, ek='real', minlen=0, inf=False, n=None):
+        """numeric list of symbolic length (n: its length, when the contract fixes it)"""
+        if isinstance(n, int) and not isinstance(n, bool):
+            items = [self.real('%s_%d' % (name, k), inf=inf) if ek == 'real' else self.int('%s_%d' % (name, k))
+                     for k in range(n)]
+            r = self.st.alloc('clist', items, name=name, nd=nd)
+            self._reg(name, lambda m, items=items: [_num(m, x.t) if isinstance(x, SV) else x for x in items])
+            return r
         arr = z3.Array(name + '_a', z3.IntSort(), z3.RealSort() if ek == 'real' else z3.IntSort())
         ln = z3.Int(name + '_n')
         self.st.assume(ln >= minlen)
@@ -84,6 +96,8 @@ class SymH:
             sel = z3.Select(arr, kq)
             self.st.assume(z3.ForAll([kq], z3.And(-INF <= sel, sel <= INF) if inf else z3.And(-INF < sel, sel < INF)))
         r = self.st.alloc('slist', {'len': ln, 'arr': arr, 'ek': ek}, name=name, nd=nd)
+        if n is not None:
+            self.st.assume(ln == zint(n))
 
         def get(m, ln=ln, arr=arr):
             n = _num(m, ln)
@@ -97,6 +111,10 @@ class SymH:
 
     def matrix(self, name, nrows, ncols, nd=True):
         """2-d array / list of separate rows with symbolic shape (by-value rows: rows are distinct objects)"""
+        if isinstance(nrows, int) and isinstance(ncols, int):
+            rows = [self.list_real('%s_%d' % (name, i), nd=nd, n=ncols) for i in range(nrows)]
+            r = self.st.alloc('clist', rows, name=name, nd=False)
+            return r
         rows = z3.Array(name + '_r', z3.IntSort(), z3.ArraySort(z3.IntSort(), z3.RealSort()))
         r = self.st.alloc('rows', {'len': zint(nrows), 'rows': rows, 'ncols': zint(ncols)}, name=name, nd=nd)
         self._inf_axiom()
@@ -247,6 +265,17 @@ class SymH:
     def log(self, name):
         return tuple(self.st.ghost.get(name, []))
 
+    def spec(self, name, value, pure=False):
+        """make a spec function / ghost object visible by name in contract expressions and loop invariants"""
+        self.I.spec_names[name] = value
+        if pure:
+            from . import interp as _ip
+            _ip.PURE_SPEC_CALLS.add(name)
+
+    def set_summaries(self, table):
+        """callee contracts that depend on per-path abstract callables: (relpath, qualname) -> summary"""
+        self.I.summaries.update(table)
+
     def _congruence(self, name, enc):
         """lists are passed to uninterpreted functions as (len, array); two argument tuples that agree on
         [0,len) denote the same python lists, so they must get the same results.  Instantiated pairwise
@@ -338,24 +367,24 @@ class SymH:
         return self.I.getattr(o, name)
 
     # ------------------------------------------------------------ logic
-    def ev(self, expr, **env):
+    def ev(self, expr, /, **env):
         tree = ast.parse(expr.strip(), mode='eval').body
         e = Env(dict(env), None, None)
         return self.I.eval(tree, e)
 
-    def assume(self, expr, **env):
+    def assume(self, expr, /, **env):
         v = self.ev(expr, **env) if isinstance(expr, str) else expr
         t = self.I.truth_term(v)
         self.st.assume(t)
         if not isinstance(t, bool) and not self.st.feasible(z3.BoolVal(True)):
             raise PathEnd()
 
-    def check(self, label, expr, **env):
+    def check(self, label, expr, /, **env):
         v = self.ev(expr, **env) if isinstance(expr, str) else expr
         t = self.I.truth_term(v)
         self.st.check(label, t, detail=expr if isinstance(expr, str) else '')
 
-    def cover(self, label, expr='True', **env):
+    def cover(self, label, expr="True", /, **env):
         """reachability: the condition must be satisfiable here (vacuity guard)"""
         v = self.ev(expr, **env)
         t = self.I.truth_term(v)
@@ -424,7 +453,8 @@ class CaseResult:
             d.setdefault('smt2', []).append(o.model['__smt2__'])
 
 
-def explore(name, harness_fn, loops=None, summaries=None, timeout_ms=10000, max_paths=4000, deadline=None):
+def explore(name, harness_fn, loops=None, summaries=None, timeout_ms=10000, max_paths=4000, deadline=None,
+            concretize=None):
     """run harness_fn(h) on every feasible path; returns CaseResult"""
     res = CaseResult(name)
     t0 = time.time()
@@ -442,7 +472,7 @@ def explore(name, harness_fn, loops=None, summaries=None, timeout_ms=10000, max_
                                                          'secs': 0, 'detail': 'path budget exhausted', 'trivial': 0})
             break
         st = State(prefix, timeout_ms)
-        h = SymH(st, loops, summaries)
+        h = SymH(st, loops, summaries, concretize)
         res.paths += 1
         try:
             harness_fn(h)
@@ -566,6 +596,7 @@ class _Helpers:
 
 NATIVE_NS = {k: getattr(_Helpers, k) for k in dir(_Helpers) if not k.startswith('_') and not k.startswith('tol')}
 NATIVE_NS['inf'] = float('inf')
+NATIVE_NS_EXTRA = {}
 
 
 class Discard(Exception):
@@ -651,11 +682,17 @@ class NativeH:
         k = int(self._val(name, lambda: r.randrange(len(options))))
         return options[k]
 
-    def list_real(self, name, nd=False, ek='real', minlen=0, inf=False):
+    def list_real(self, name, nd=False, ek='real', minlen=0, inf=False, n=None):
         r = self.rng or _random
 
         def gen():
-            n = r.choice([0, 1, 1, 2, 2, 3, 4, 5, 8]) if minlen == 0 else r.choice([1, 1, 2, 3, 4, 6]) + minlen - 1
+            if n is not None:
+                nn = int(n)
+            else:
+                nn = r.choice([0, 1, 1, 2, 2, 3, 4, 5, 8]) if minlen == 0 else r.choice([1, 1, 2, 3, 4, 6]) + minlen - 1
+            if ek == 'int':
+                return [r.randrange(-3, 6) for _ in range(nn)]
+            return [self._rnd_real(inf) for _ in range(nn)]
             if ek == 'int':
                 return [r.randrange(-3, 6) for _ in range(n)]
             return [self._rnd_real(inf) for _ in range(n)]
@@ -876,6 +913,12 @@ class NativeH:
     def log(self, name):
         return tuple(self.ghost.get(name, []))
 
+    def spec(self, name, value, pure=False):
+        NATIVE_NS_EXTRA[name] = value
+
+    def set_summaries(self, table):
+        pass
+
     # ------------------------------------------------------------ code access
     def get(self, anchor):
         rel, qual = split_anchor(anchor)
@@ -900,18 +943,19 @@ class NativeH:
         return getattr(o, name)
 
     # ------------------------------------------------------------ logic
-    def ev(self, expr, **env):
+    def ev(self, expr, /, **env):
         ns = dict(NATIVE_NS)
+        ns.update(NATIVE_NS_EXTRA)
         ns.update(env)
         ns['__builtins__'] = __builtins__
         return eval(expr, ns)       # one namespace, so lambdas inside the expression see the bindings
 
-    def assume(self, expr, **env):
+    def assume(self, expr, /, **env):
         v = self.ev(expr, **env) if isinstance(expr, str) else expr
         if not v:
             raise Discard(expr)
 
-    def check(self, label, expr, **env):
+    def check(self, label, expr, /, **env):
         try:
             v = self.ev(expr, **env) if isinstance(expr, str) else expr
         except Discard:
@@ -923,7 +967,7 @@ class NativeH:
         if not v:
             self.failures.append((label, expr))
 
-    def cover(self, label, expr='True', **env):
+    def cover(self, label, expr="True", /, **env):
         pass
 
     def snapshot(self, v):
